@@ -663,7 +663,8 @@ pub fn run_c13(tier: &str, seed: u64) -> campaign::CampaignResult {
             Err(msg) => {
                 let (source, program) = match prog {
                     Some(p) => {
-                        let r = reduce_static(p, 20, &|q| matches!(c13_one(&print::plain(q), THEORY), Err(e) if e != "timeout"));
+                        // minimisation (each step = 12 compilations) only for the first findings of a run
+                        let r = reduce_static(p, if violations < 3 { 20 } else { 0 }, &|q| matches!(c13_one(&print::plain(q), THEORY), Err(e) if e != "timeout"));
                         (print::plain(&r), Some(r))
                     }
                     None => (src.clone(), None),
